@@ -83,7 +83,8 @@ let rec show_json (b : Stdlib.Buffer.t) (j : Json.json) : unit =
     Stdlib.List.iteri (fun k (key, x) -> if k > 0 then add ","; add ("s" ^ hex_of_bytes key ^ ":"); show_json b x) l;
     add "}"
 
-let json_ser (utf8 : bool) (t : TextTok.ttok list) idx entry pretty dup narrow : string =
+(* the model's tree for one entry point (None: the reader refuses the token) *)
+let json_tree (utf8 : bool) (t : TextTok.ttok list) idx entry pretty dup narrow : Json.json option =
   let dec = Json.decode_of utf8 in
   let o = { Json.pretty = (pretty = "1");
             Json.duplicate_keys = (match dup with "g" -> Json.Group | "p" -> Json.Preserve | _ -> Json.KeyValuePairs);
@@ -97,7 +98,10 @@ let json_ser (utf8 : bool) (t : TextTok.ttok list) idx entry pretty dup narrow :
       | "o" -> (match api (Dom.read_object t v) with Some r -> Some (ok (Json.json_object dec !dbg o t r)) | None -> None)
       | _ -> (match api (Dom.read_array t v) with Some r -> Some (ok (Json.json_array dec !dbg o t r)) | None -> None)
     end in
-  match res with
+  res
+
+let json_ser (utf8 : bool) (t : TextTok.ttok list) idx entry pretty dup narrow : string =
+  match json_tree utf8 t idx entry pretty dup narrow with
   | None -> "E"
   | Some j -> let b = Stdlib.Buffer.create 256 in show_json b j; Stdlib.Buffer.contents b
 
